@@ -761,6 +761,20 @@ impl<'a> Runner<'a> {
             }
             let live: Vec<u32> = self.live.values().map(|x| x.0).collect();
             let n_live = live.len();
+            if sc.end.plain_touch {
+                // A value without a destructor passes through every inner pool: nothing the model can see.
+                let lays: Vec<u8> = self.insertable.iter().copied().filter(|l| lay_info(*l).size <= 65_536).collect();
+                let mut touched = false;
+                if let Some(p) = self.pools.last_mut() {
+                    for l in lays {
+                        touched |= p.plain_touch(l);
+                    }
+                }
+                if touched {
+                    self.ctx.probe(if n_live > 0 { "plain-data-inserted-last-among-live-objects" } else { "plain-data-inserted-last" });
+                    self.check_after(n_ops, &end_op, &[])?;
+                }
+            }
             let Some(pool) = self.pools.pop() else { return Ok(()) };
             // Inert handles are released first (nothing happens).
             for (_, h) in std::mem::take(&mut self.handles) {
